@@ -211,17 +211,17 @@ type gres struct {
 }
 
 type gateRun struct {
-	sc    *GateScenario
-	st    *gateStats
-	hist  *History
-	tr    *ctree.Tree
-	m     *Model
-	mu    sync.Mutex
-	armed map[int]*gpark
-	clock atomic.Int64
-	next  []int
-	park  []*gpark // per thread
-	nextH int
+	sc       *GateScenario
+	st       *gateStats
+	hist     *History
+	tr       *ctree.Tree
+	m        *Model
+	mu       sync.Mutex
+	armed    map[int]*gpark
+	clock    atomic.Int64
+	next     []int
+	park     []*gpark // per thread
+	nextH    int
 	diverged string
 }
 
